@@ -23,7 +23,10 @@ RULE = ("E3: ALL labelled DAGs on n<=4 nodes (1+3+25+543; n=5: 29281 in "
         "files; oracle: one task per node, unique ids carrying the "
         "observation name, demands, edges and volumes, pred lists, io map, "
         "topological task order, predecessor/successor queries converse and "
-        "equal to the graph; non-trivial = DAG with at least one edge")
+        "equal to the graph; each workflow is planned three times by ONE "
+        "planner instance (observation A, another observation at the same "
+        "clock, A again at a later clock) and ids must not be shared between "
+        "plans; non-trivial = DAG with at least one edge")
 
 IDS = [7, 3, 12, 5, 9]
 
@@ -75,14 +78,48 @@ _ENV = {}
 
 
 def judge(wf, name, clock):
+    """plans for `name`, then for a second observation at the SAME clock,
+    then for `name` again at a later clock - all from ONE planner/planning-
+    model instance (plans of a simulation come from one instance)"""
+    vs, ids1 = judge_one(wf, name, clock, None)
+    state = judge_one.state
+    other = "zeta" if name != "zeta" else "eta"
+    vs2, ids2 = judge_one(wf, other, clock, state)
+    vs3, ids3 = judge_one(wf, name, clock + 3, state)
+    out = list(vs)
+    for tag, more in (("second-plan-same-clock", vs2),
+                      ("third-plan-later-clock", vs3)):
+        for c, cause, d in more:
+            out.append((c, "%s:%s" % (cause, tag), d))
+    if ids1 and ids2 and set(ids1) & set(ids2):
+        out.append(("C14.unique-ids", "ids-shared-between-two-plans",
+                    {"shared": sorted(set(ids1) & set(ids2))[:4]}))
+    if ids1 and ids3 and set(ids1) & set(ids3):
+        out.append(("C14.unique-ids", "ids-shared-between-two-plans",
+                    {"shared": sorted(set(ids1) & set(ids3))[:4]}))
+    seen, res = set(), []
+    for v in out:
+        if (v[0], v[1]) not in seen:
+            seen.add((v[0], v[1]))
+            res.append(v)
+    return res
+
+
+def judge_one(wf, name, clock, state):
     cfg = mkcfg([[1, 1]], [mkobs(name, 0, 2, 1, 1, 1, "w")])
     case = mkcase(cfg, {"w": wf})
     path = world.materialise(case)
-    env = simpy.Environment(initial_time=clock)
-    config = Config(path)
-    cluster = Cluster(env, config)
-    planner = Planner(env, cluster, BatchPlanning('batch'), None)
-    buffer = Buffer(env, cluster, planner, config)
+    if state is None:
+        env = simpy.Environment(initial_time=clock)
+        config = Config(path)
+        cluster = Cluster(env, config)
+        planner = Planner(env, cluster, BatchPlanning('batch'), None)
+        buffer = Buffer(env, cluster, planner, config)
+        judge_one.state = (env, cluster, planner, buffer)
+    else:
+        env, cluster, planner, buffer = state
+        if env.now < clock:
+            env.run(until=clock)
     wfpath = os.path.join(os.path.dirname(path), world.config_json(
         cfg, {"w": "wf_%s.json" % world._digest(wf)})["instrument"][
             "telescope"]["pipelines"][name]["workflow"])
@@ -93,7 +130,7 @@ def judge(wf, name, clock):
         plan = planner.run(obs, buffer, 1)
     except Exception as e:
         return [("C14.plan-generated", "planner-raised:%s" %
-                 type(e).__name__, {"error": repr(e)})]
+                 type(e).__name__, {"error": repr(e)})], []
     node_ids = [n[0] for n in wf["nodes"]]
     tasks = list(plan.tasks)
     by_gid = {}
@@ -103,12 +140,13 @@ def judge(wf, name, clock):
             any(len(v) != 1 for v in by_gid.values()) or \
             len(tasks) != len(node_ids):
         return [("C14.one-task-per-node", "task-set-differs-from-nodes",
-                 {"nodes": node_ids, "tasks": [t.id for t in tasks]})]
+                 {"nodes": node_ids, "tasks": [t.id for t in tasks]})], []
     tid = {g: v[0].id for g, v in by_gid.items()}
     tobj = {g: v[0] for g, v in by_gid.items()}
     if len(set(tid.values())) != len(tid):
         vs.append(("C14.unique-ids", "duplicate-task-id", {"ids": tid}))
-    if any(name not in str(i) for i in tid.values()):
+    if any(not str(i).startswith(name + "_") and ("_" + name + "_") not in
+           str(i) and name not in str(i).split("_") for i in tid.values()):
         vs.append(("C14.unique-ids", "id-without-observation-name",
                    {"ids": list(tid.values())}))
     for n in wf["nodes"]:
@@ -192,7 +230,7 @@ def judge(wf, name, clock):
         if (v[0], v[1]) not in seen:
             seen.add((v[0], v[1]))
             out.append(v)
-    return out
+    return out, list(tid.values())
 
 
 def run(rep, tier, seed):
@@ -223,7 +261,7 @@ def run(rep, tier, seed):
         s["cases"] += 1
         s["executions"] += 1
         rep.evaluations += 1
-        rep.transitions += 1
+        rep.transitions += 3
         if c["edges"]:
             rep.nontrivial.add(len(rep.nontrivial))
         for clause, cause, det in vs:
